@@ -226,3 +226,7 @@ package turn
 //@   at-call server.HandleRequest assert [C01,C02,C06,C07:configured-timeouts] arg0.ChannelBindTimeout == s.channelBindTimeout && arg0.PermissionTimeout == s.permissionTimeout && arg0.AllocationLifetime == s.allocationLifetime && arg0.AllocationManager == allocationManager && arg0.NonceHash == s.nonceHash && arg0.Realm == s.realm
 //@   ensures [C09:serve-ends-only-on-read-error] lastReadFailed
 //@   loop 0 invariant fresh(base(buf)) && len(buf) > 0
+
+// ---- C18: lock discipline ("guarded by") of the client's own fields
+//@ guarded turn/v5.Client.relayedConn by turn/v5.Client.mutex
+//@ guarded turn/v5.Client.tcpAllocation by turn/v5.Client.mutex
